@@ -125,10 +125,32 @@ func checkScan(t *testing.T, c Case) (v harness.Verdict) {
 	var mu sync.Mutex
 	var got []foundRec
 	late := make([]int64, 2)
+	var warm []*warmResult
 	outs := runCase(t, "scan", &c, log, func(f *fakeLog, st *runState) (func(ctx context.Context) error, func()) {
+		for _, w := range c.Warm {
+			warm = append(warm, runWarm(w, log))
+		}
 		opts := scanner.ScannerOptions{
 			FetcherOptions: scanner.FetcherOptions{BatchSize: c.Batch, ParallelFetch: c.Fetchers, StartIndex: c.Start, EndIndex: c.End, Continuous: c.Continuous},
 			Matcher:        matcherFor(&c), PrecertOnly: c.PrecertOnly, NumWorkers: c.Workers, BufferSize: c.Buffer,
+		}
+		if c.Defaults {
+			d := scanner.DefaultScannerOptions()
+			d.BatchSize, d.ParallelFetch = c.Batch, c.Fetchers
+			if c.Start != 0 {
+				d.StartIndex = c.Start
+			}
+			if c.End != 0 {
+				d.EndIndex = c.End
+			}
+			if c.Continuous {
+				d.Continuous = true
+			}
+			d.Matcher, d.NumWorkers, d.BufferSize = matcherFor(&c), c.Workers, c.Buffer
+			if c.PrecertOnly {
+				d.PrecertOnly = true
+			}
+			opts = *d
 		}
 		s := scanner.NewScanner(f, opts)
 		found := func(kind int) func(*ct.RawLogEntry) {
@@ -168,6 +190,9 @@ func checkScan(t *testing.T, c Case) (v harness.Verdict) {
 		v.Class("buffer:0")
 	} else {
 		v.Class("buffer:1+")
+	}
+	for i, w := range warm {
+		w.judge(i, &v)
 	}
 	for _, o := range outs {
 		o.late = late[o.phase]
